@@ -5,6 +5,9 @@
    a stopped interface are dropped: C08/C10). *)
 From CR Require Import Model.Sched Proofs.Sched Base.IP.
 From Coq Require Import Lia.
+(* the plugin lock can never hang an RA build / scrape / API request: C17_lock_discipline (extracted),
+   C17_lock_no_deadlock, C17_lock_terminates, C17_lock_reentrant_deadlock are stated in Properties/C17lock.v *)
+From CR Require Properties.C17lock.
 Local Open Scope Z_scope.
 
 (* the transmissions to a specified address are exactly one per solicitation from it, at t + r *)
